@@ -17,6 +17,7 @@ structure St where
   prevCache : String := "absent"            -- actual token of the snapshot file before the current step
   lastSave : Option Nat := none             -- snapshot id of the save being checked
   lastWasPlant : Bool := false
+  lastSaveOk : Bool := false                -- the step being checked is an explicit Save() that reported success
   hists : Nat := 0
   saves : Nat := 0
   crashes : Nat := 0
@@ -62,7 +63,7 @@ def step (st : St) (toks : List String) : St × List Issue :=
       | some d =>
         let fs := Nri.SaveFs.run st.fs (saveProg d)
         let is := if name == "save" && res != "ok" then [⟨.model, s!"hist={st.hist} Save failed without an injected fault"⟩] else []
-        ({ st with fs, lastSave := some sid, lastWasPlant := false, saves := st.saves + 1 }, is)
+        ({ st with fs, lastSave := some sid, lastWasPlant := false, lastSaveOk := name == "save" && res == "ok", saves := st.saves + 1 }, is)
       | none => (st, [⟨.parse, "save of undeclared content"⟩])
     | none => (st, [⟨.parse, "S save"⟩])
   | ["S", "savefail", name, sid, k, pid, res] =>
@@ -73,7 +74,7 @@ def step (st : St) (toks : List String) : St × List Issue :=
         let st := { st with names := (pid, d.take k) :: st.names }
         let fs := crashed st.fs d 1 k
         let is := if name == "save" && res != "err" then [⟨.model, s!"hist={st.hist} Save reported success although its write was cut after {k} bytes"⟩] else []
-        ({ st with fs, lastSave := some sid, lastWasPlant := false, saves := st.saves + 1, crashes := st.crashes + 1 }, is)
+        ({ st with fs, lastSave := some sid, lastWasPlant := false, lastSaveOk := name == "save" && res == "ok", saves := st.saves + 1, crashes := st.crashes + 1 }, is)
       | none => (st, [⟨.parse, "savefail of undeclared content"⟩])
     | _, _, _ => (st, [⟨.parse, "S savefail"⟩])
   | ["S", "plant", id, parent, k] =>
@@ -85,7 +86,7 @@ def step (st : St) (toks : List String) : St × List Issue :=
           | none => st
         | none => st
       match contentOf st id with
-      | some c => ({ st with fs := { st.fs with tmp := some c }, lastSave := none, lastWasPlant := true, nontrivial := st.nontrivial + 1 }, [])
+      | some c => ({ st with fs := { st.fs with tmp := some c }, lastSave := none, lastWasPlant := true, lastSaveOk := false, nontrivial := st.nontrivial + 1 }, [])
       | none => (st, [⟨.parse, "plant of undeclared content"⟩])
     | _, _ => (st, [⟨.parse, "S plant"⟩])
   | ["F", a, b] =>
@@ -98,7 +99,9 @@ def step (st : St) (toks : List String) : St × List Issue :=
     let okNew := match st.lastSave with | some sid => a == toString sid | none => false
     let is := if !(a == st.prevCache || okNew) then is ++ [⟨.property, s!"C10:snapshot-file-neither-old-nor-new hist={st.hist} before={st.prevCache} after={a} new={st.lastSave.map toString |>.getD "-"}"⟩] else is
     let is := if !isSnap then is ++ [⟨.property, s!"C10:snapshot-file-not-a-complete-snapshot hist={st.hist} file={a}"⟩] else is
-    ({ st with prevCache := a, lastSave := none }, is)
+    -- property: a Save() that reports success has put the state at that Save on disk (what a reload then restores)
+    let is := if st.lastSaveOk && !okNew then is ++ [⟨.property, s!"C10:successful-save-not-on-disk hist={st.hist} file={a} saved={st.lastSave.map toString |>.getD "-"}"⟩] else is
+    ({ st with prevCache := a, lastSave := none, lastSaveOk := false }, is)
   | "L" :: res :: eq :: disk :: rest =>
     let st := { st with reloads := st.reloads + 1 }
     let is : List Issue := []
